@@ -247,4 +247,9 @@ def containers(x, acc=None, seen=None, path="$", paths=None):
     elif isinstance(x, (list, tuple, set, frozenset, collections.deque)):
         for i, v in enumerate(x):
             containers(v, acc, seen, f"{path}[{i}]", paths)
+    elif type(x).__module__.startswith(("c", "v", "g", "r")) and hasattr(x, "__dict__") and not isinstance(x, type) and type(x).__module__ in sys.modules and getattr(
+            sys.modules[type(x).__module__], "_V", None) is not None:
+        # an instance of a user class defined in a generated family module (SerializableType, boxed classes ...)
+        for k, v in vars(x).items():
+            containers(v, acc, seen, f"{path}.{k}", paths)
     return acc
